@@ -964,7 +964,7 @@ class TorControlProtocol(LineOnlyReceiver):
 
     def _is_end_line(self, line):
         "for FSM"
-        return line.strip() == '.'
+        return line == '.'
 
     def _is_not_end_line(self, line):
         "for FSM"
@@ -1024,6 +1024,9 @@ class TorControlProtocol(LineOnlyReceiver):
 
     def _accumulate_multi_response(self, line):
         "for FSM"
+        # undo the dot-stuffing of data lines (control-spec 2.4)
+        if line.startswith('.'):
+            line = line[1:]
         if self._line_callback() is not None:
             self.command[2](line)
 
